@@ -83,10 +83,12 @@ int ds_fine = 1;
 
 static inline uint64_t rnd(void)
 {
-    g_rng ^= g_rng << 13;
-    g_rng ^= g_rng >> 7;
-    g_rng ^= g_rng << 17;
-    return g_rng;
+    /* splitmix64: consecutive outputs are independent enough for
+     * "pre-empt?" followed by "to whom?" (plain xorshift is not) */
+    uint64_t z = (g_rng += 0x9e3779b97f4a7c15ull);
+    z = (z ^ (z >> 30)) * 0xbf58476d1ce4e5b9ull;
+    z = (z ^ (z >> 27)) * 0x94d049bb133111ebull;
+    return z ^ (z >> 31);
 }
 
 static void fwait(volatile int *p)
